@@ -60,6 +60,7 @@ def run_case(darsia, rng, tid, cfg, nextra, rgb, dtype, shape, probe_is_base):
         probes += [("update", newbase_a), ("update", arr())]
     evs = []
     ca = None
+    omit = (rng.random() < 0.5, rng.random() < 0.5)
     for j, probe_a in enumerate(probes):
         if isinstance(probe_a, tuple):
             if j == 3:
@@ -85,7 +86,9 @@ def run_case(darsia, rng, tid, cfg, nextra, rgb, dtype, shape, probe_is_base):
                         balancing=bal if cfg["bal"] else None,
                         restoration=res if cfg["res"] else None,
                         model=mod if cfg["mod"] else None,
-                        **{"diff option": cfg["diff"], "restoration -> model": bool(cfg["order"])},
+                        # the documented defaults (absolute differences, restoration before the model) also by omission
+                        **{k_: v_ for k_, v_ in {"diff option": cfg["diff"], "restoration -> model": bool(cfg["order"])}.items()
+                           if not ((k_ == "diff option" and v_ == "absolute" and omit[0]) or (k_ == "restoration -> model" and v_ is True and omit[1]))},
                     )
                 probe = image(probe_a)
                 before = (probe.img.copy(), probe.metadata())
